@@ -346,3 +346,45 @@ package h2
 //@ ensures f is *http2.RSTStreamFrame && result == nil ==> pRst(procOf(r, old(f.(*http2.RSTStreamFrame).StreamID))) == old(f.(*http2.RSTStreamFrame).ErrCode)
 //@ ensures f is *http2.HeadersFrame && !old(hfEnded(f.(*http2.HeadersFrame))) ==> result == nil && r.continuationState is *headerContinuation && r.continuationState.(*headerContinuation).endStream == old(hfStreamEnded(f.(*http2.HeadersFrame))) && r.continuationState.(*headerContinuation).priority == old(f.(*http2.HeadersFrame).Priority)
 //@ ensures f is *http2.PushPromiseFrame && !old(ppEnded(f.(*http2.PushPromiseFrame))) ==> result == nil && r.continuationState is *pushPromiseContinuation && r.continuationState.(*pushPromiseContinuation).promiseID == old(f.(*http2.PushPromiseFrame).PromiseID)
+
+// ---- what a queued frame puts on the wire (C10) ----
+
+//@ func (*queuedDataFrame).send
+//@ property C10
+//@ requires f != nil && dest != nil
+//@ modifies fwN(dest), fwKind, fwA, fwB, fwC
+//@ ensures result == nil ==> fwN(dest) == old(fwN(dest)) + 1 && fwKind(dest, old(fwN(dest))) == 0 && fwA(dest, old(fwN(dest))) == f.streamID && (fwB(dest, old(fwN(dest))) == 1) == f.endStream && fwC(dest, old(fwN(dest))) == len(f.data)
+
+// HEADERS first with the frame's END_STREAM, END_HEADERS only if it is the
+// only chunk; then one CONTINUATION per further chunk, END_HEADERS on the last.
+//@ func (*queuedHeaderFrame).send
+//@ property C10
+//@ requires f != nil && dest != nil && len(f.chunks) >= 1
+//@ modifies fwN(dest), fwKind, fwA, fwB, fwC, pkg(fmt)
+//@ ensures result == nil ==> fwN(dest) == old(fwN(dest)) + len(f.chunks)
+//@ ensures result == nil ==> fwKind(dest, old(fwN(dest))) == 1 && fwA(dest, old(fwN(dest))) == f.streamID && (fwB(dest, old(fwN(dest))) == 1) == f.endStream && (fwC(dest, old(fwN(dest))) == 1) == (len(f.chunks) == 1)
+//@ ensures result == nil ==> forall k int :: 1 <= k && k < len(f.chunks) ==> fwKind(dest, old(fwN(dest)) + k) == 9 && fwA(dest, old(fwN(dest)) + k) == f.streamID && (fwC(dest, old(fwN(dest)) + k) == 1) == (k == len(f.chunks) - 1)
+//@ loop 0:
+//@   invariant 1 <= i && i <= len(f.chunks) && fwN(dest) == old(fwN(dest)) + i
+//@   invariant fwKind(dest, old(fwN(dest))) == 1 && fwA(dest, old(fwN(dest))) == f.streamID && (fwB(dest, old(fwN(dest))) == 1) == f.endStream && (fwC(dest, old(fwN(dest))) == 1) == (len(f.chunks) == 1)
+//@   invariant forall k int :: 1 <= k && k < i ==> fwKind(dest, old(fwN(dest)) + k) == 9 && fwA(dest, old(fwN(dest)) + k) == f.streamID && (fwC(dest, old(fwN(dest)) + k) == 1) == (k == len(f.chunks) - 1)
+//@   decreases len(f.chunks) - i
+
+//@ func (*queuedRSTStreamFrame).send
+//@ property C10
+//@ requires f != nil && dest != nil
+//@ modifies fwN(dest), fwKind, fwA, fwB, pkg(fmt)
+//@ ensures result == nil ==> fwN(dest) == old(fwN(dest)) + 1 && fwKind(dest, old(fwN(dest))) == 3 && fwA(dest, old(fwN(dest))) == f.streamID && fwB(dest, old(fwN(dest))) == f.errCode
+
+// ---- the default sink of a stream: straight into the opposite relay ----
+
+//@ func (*relayAdapter).Data
+//@ property C09 C10
+//@ requires r != nil && r.relay != nil && relayInv(r.relay) && len(data) < 4294967296
+//@ modifies **
+
+//@ func (*relayAdapter).Header
+//@ property C10
+//@ requires r != nil && r.relay != nil && relayInv(r.relay) && r.relay.encoder != nil && r.relay.enableDebugLogs != nil
+//@ modifies **
+//@ ensures result == nil ==> lastEnq(r.relay) is *queuedHeaderFrame && lastEnq(r.relay).(*queuedHeaderFrame).endStream == streamEnded && lastEnq(r.relay).(*queuedHeaderFrame).streamID == old(r.id)
